@@ -251,6 +251,9 @@ def main(tier):
         rule_D(ck, an, {name: u})
         import c17
         c17.rule_B(ck, {name: u})   # the system matrix handed over by shared pointer is never modified
+        if name in ('rt_builtin', 'mpi_rt'):
+            import c02
+            c02.rule_AB(ck, {name: u})   # per-level scratch of the multigrid cycle is history-free (shared with C02)
     ck.assumptions += ['arrays of vectors / scalars are treated per array, not per element (a kill of one element counts for the array)',
                        'member objects with their own methods (QR, nested solvers) are analysed in their own classes',
                        'callee effects are derived bottom-up from the instantiated bodies; recursion is closed coinductively',
